@@ -121,6 +121,12 @@ var c02Boundary = []func() (string, string){
 
 func (c *c02) RunCase(r *fw.Rec, cs fw.Case) {
 	rng := cs.Rng("c02")
+	if cs.Index%40 == 39 {
+		// a VM that is run again after an Abort at any call depth must start from a clean machine: no stale frame,
+		// instruction pointer or stack content may make the second run read outside its function (see c07.go)
+		vmReuseAfterAbort(r, rng)
+		return
+	}
 	var src, expect string
 	var mods *tengo.ModuleMap
 	if cs.Index < len(c02Boundary) {
@@ -323,7 +329,7 @@ func (c *c02) RunCase(r *fw.Rec, cs fw.Case) {
 }
 
 func (c *c02) Finish(m *fw.Merged, tier string) {
-	for _, k := range []string{"programs", "functions_verified", "dispatches_checked", "clean-run", "runtime-error", "boundary-probes"} {
+	for _, k := range []string{"programs", "functions_verified", "dispatches_checked", "clean-run", "runtime-error", "boundary-probes", "vm-reuse-reruns-checked"} {
 		if m.Counters[k] == 0 {
 			m.Fail("never observed: " + k)
 		}
